@@ -507,6 +507,39 @@ func (fc *FuncCtx) lookupLocalAt(fr *Frame, st *State, name string, at token.Pos
 
 func (fc *FuncCtx) checkPost(fr *Frame, ret *State, vals []Val) {
 	c := fc.contract
+	// ghost assignments (auxiliary variables): run in order at the return, before hints and postconditions.
+	// Only contract-only ghost fields can be assigned, so no program value depends on them; the writes
+	// are subject to the modifies clause like any other (checkFrame below).
+	for _, gs := range c.GhostSets {
+		genv := fc.envFor(fr, ret, vals, true)
+		func() {
+			defer func() {
+				if r := recover(); r != nil {
+					if ee, ok := r.(elabErr); ok {
+						panic(elabErr{fmt.Sprintf("%s:%d: ghostset: %s", c.File, gs.Line, ee.msg)})
+					}
+					panic(r)
+				}
+			}()
+			name := gs.LHS.Args[0].(SIdent).Name
+			if fc.p.externGhost[name] {
+				panic(elabErr{"ghost field " + name + " models the state of a library object (specs/externs.spec): it cannot be assigned"})
+			}
+			obj := genv.elab(gs.LHS.Args[1])
+			val := genv.elab(gs.RHS)
+			if obj.T.Sort != SInt || val.T.Sort != SInt {
+				panic(elabErr{"the object must be a reference and the value an integer"})
+			}
+			h := ghostFieldHeap(fc.p, name, gs.LHS.Fn == "gfa")
+			cur := ret.H(fc.p, h)
+			if gs.LHS.Fn == "gf" {
+				ret.setH(h, Store(cur, obj.T, val.T))
+			} else {
+				ix := genv.elab(gs.LHS.Args[2])
+				ret.setH(h, Store(cur, obj.T, Store(Select(cur, obj.T), ix.T, val.T)))
+			}
+		}()
+	}
 	if len(c.Hints) > 0 {
 		henv := fc.envFor(fr, ret, vals, true)
 		for _, h := range c.Hints {
